@@ -232,13 +232,13 @@ fn main() {
                             TunnResult::WriteToTunnel(p) => {
                                 let got = p.to_vec();
                                 // HonestExact + AtMostOnce on real bytes
-                                match sent.iter().position(|s| s.data == got && !delivered.iter().any(|x| *x == s.data)) {
-                                    Some(_) => {}
-                                    None => {
-                                        let dupd = delivered.iter().any(|x| *x == got);
-                                        local_pv.push(json!({"key": if dupd {"E2E:delivered-twice"} else {"E2E:delivered-bytes-never-sent"}, "run":run,
-                                            "what": format!("{}: delivered {} bytes that {}", d.name, got.len(), if dupd {"were already delivered"} else {"equal no packet sent"})}));
-                                    }
+                                // multiset comparison: small packets may legitimately have equal contents
+                                let n_sent = sent.iter().filter(|s| s.data == got).count();
+                                let n_deliv = delivered.iter().filter(|x| **x == got).count() + 1;
+                                if n_deliv > n_sent {
+                                    local_pv.push(json!({"key": if n_sent > 0 {"E2E:delivered-twice"} else {"E2E:delivered-bytes-never-sent"}, "run":run,
+                                        "what": format!("{}: delivered {} bytes {} (sent {} time(s), delivered {} time(s))", d.name, got.len(),
+                                            if n_sent > 0 {"more often than they were sent"} else {"that equal no packet sent"}, n_sent, n_deliv)}));
                                 }
                                 delivered.push(got.clone());
                                 sent[pi].delivered_frames += 1;
